@@ -1,6 +1,7 @@
 package main
 
-// write-side parts of C13/C16 are provided by the writer harness (writer.go);
-// until it exists these are no-ops.
+// hooks filled by other files
 var runC13W = func(c *ctx) {}
 var runC16W = func(c *ctx) {}
+var runC08H = func(c *ctx) {}
+var runC18R = func(c *ctx) {}
